@@ -7,7 +7,8 @@
    from integers below 2^64, which is the only way SearchK_gen.v uses them.  The library is validated on
    every run against the real function (driver part (i), which includes inputs where the double rounding
    of k / (live/total) lands one ulp above an integer, e.g. k=1 live=1 total=49 -> 50). *)
-From Coq Require Import NArith ZArith.
+From Coq Require Import NArith ZArith Bool.
+Open Scope bool_scope.
 Open Scope Z_scope.
 
 Definition f64 : Set := (Z * Z)%type.   (* (mantissa >= 0, exponent) *)
